@@ -103,42 +103,7 @@ theorem blocks_constant (clamp : Nat) (t : Tuning) (judge : Judge) (block : Opti
       nextSeq clamp t Woodpile.Stream.prod judge block n s r := by
   rw [nextSeqBP_eq clamp t _ prod_valid, nextSeqB_replicate]
 
-/-! ### what `segments` is -/
-
-/-- **`segments` is sound**: every segment is a piece of the stream at exactly the range it
-claims, contains no stuff sequence, and is delimited on each side by a stuff sequence or by
-the start / the end of the stream (`IsDelimitedPiece`). -/
-theorem segments_sound (s : List UInt8) (sg : Seg) (h : sg ∈ segments s) : IsDelimitedPiece s sg :=
-  Woodpile.Stream.segments_sound s sg h
-
-/-- **`segments` is complete**: every such piece is a segment — whatever bytes lie beyond
-its delimiters. -/
-theorem segments_complete (s : List UInt8) (sg : Seg) (h : IsDelimitedPiece s sg) : sg ∈ segments s :=
-  Woodpile.Stream.segments_complete s sg h
-
-/-- **Tiling**: the segments, in order, joined by stuff sequences, are the stream; their
-ranges are consecutive, start at 0, and skip exactly the 2-byte delimiters; there is at
-least one. -/
-theorem segments_tile (s : List UInt8) :
-    segments s ≠ [] ∧ joinStuff ((segments s).map (·.bytes)) = s ∧
-      segments s = segsOfPieces 0 ((segments s).map (·.bytes)) := by
-  obtain ⟨ps, hne, _, hjoin, hseg⟩ := segments_decomp s
-  have hm : (segments s).map (·.bytes) = ps := by rw [hseg, segsOfPieces_map_bytes]
-  rw [hm]
-  refine ⟨?_, hjoin, hseg⟩
-  rw [hseg]
-  cases ps with
-  | nil => exact absurd rfl hne
-  | cons p rest => simp [segsOfPieces]
-
-/-- **Maximality**: the decomposition is unique.  Whenever the stream is written as
-stuff-free pieces joined by stuff sequences, those pieces (with the ranges that follow) ARE
-`segments`: no piece can be extended (it would swallow a delimiter, i.e. contain `FE FD`),
-and no delimiter can be placed anywhere but at an occurrence of `FE FD`. -/
-theorem segments_unique (s : List UInt8) (ps : List (List UInt8)) (hne : ps ≠ [])
-    (hall : ∀ p ∈ ps, findStuff p = none) (hjoin : joinStuff ps = s) :
-    segments s = segsOfPieces 0 ps :=
-  Woodpile.Stream.segments_unique s ps hne hall hjoin
+/-! What `segments` is: `Props/C08S.lean` (sound, complete, tiling, unique = maximal). -/
 
 /-! ### Resynchronisation, phrased with the encoder -/
 
@@ -196,11 +161,5 @@ example : Placed (Spec.encode Woodpile.Stream.prod [0x61])
 example : (nextSeqBP 2 C06.tun Woodpile.Stream.prod (chunkJudge 4 none) [some 0, none, some 7, some 1] RdState.new
     ⟨[0x05, 0xFE, 0xFE, 0xFD, 0x01, 0x61, 0xFE, 0xFD, 0x09, 0x01], List.replicate 12 (.deliver 3)⟩).1 =
     [.some [0x61] 4 6, .none, .none, .none] := by decide +kernel
-example : segments [0x05, 0xFE, 0xFE, 0xFD, 0x01, 0x61, 0xFE, 0xFD] =
-    [⟨[0x05, 0xFE], 0, 2⟩, ⟨[0x01, 0x61], 4, 6⟩, ⟨[], 8, 8⟩] := by decide
-example : IsDelimitedPiece [0x05, 0xFE, 0xFE, 0xFD, 0x01, 0x61, 0xFE, 0xFD] ⟨[0x01, 0x61], 4, 6⟩ :=
-  ⟨[0x05, 0xFE, 0xFE, 0xFD], [0xFE, 0xFD], rfl, rfl, rfl, by decide, Or.inr ⟨[0x05, 0xFE], rfl⟩, Or.inr ⟨[], rfl⟩⟩
--- a piece that is not maximal is not a segment
-example : (⟨[0x01], 4, 5⟩ : Seg) ∉ segments [0x05, 0xFE, 0xFE, 0xFD, 0x01, 0x61, 0xFE, 0xFD] := by decide
 
 end Woodpile.Props.C06U
